@@ -3,6 +3,7 @@ import Clikit.Props.C05
 import Clikit.Lemmas.Dict
 import Clikit.Lemmas.AppState
 import Clikit.Lemmas.IndentShared
+import Clikit.Model.RunIO
 /-!
 # C17 - what is rendered does not depend on what was processed before
 
@@ -414,6 +415,158 @@ example : ¬ Restored (runAppSP preD21 env cv app hs fresh helpFails).2 := fun h
   decide +kernel
 
 end AppDemo
+
+/-! ## The I/O of a run: created per run from the configuration, changed by handlers
+
+`Model/RunIO.lean`: `runAppIO` is `runAppS` together with the I/O objects of the run - `create_io` builds formatters
+(copies of the configuration's style set), outputs and the I/O anew for every run; the handlers that are called may do
+to them what they like (`RunIO.Handler`: any function of the I/O state).  What outlives a run is `RunIO.World`: the
+configuration's style set and - only under the seeded protocol - formatter objects kept by the configuration. -/
+section RunIO
+open Clikit.RunIO
+
+/-- what a run with result `r` shows on a world `w`: the handlers that were called work on `create_io` of `r.io` -/
+def obsOf (e : IOEnv) (w : World) (hio : IOHandlers) (r : Result) : RunObs :=
+  (r, (runIOP .perRun e w r.io (r.invoked.map fun pa => hio pa.1 pa.2)).1)
+
+theorem runAppIO_obs (env : Env) (e : IOEnv) (cv : Conv) (app : List Cmd) (hs : Handlers) (hio : IOHandlers)
+    (s : AppState) (w : World) (toks : List Str) :
+    (runAppIO env e cv app hs hio (s, w) toks).1 = obsOf e w hio (runAppS env cv app hs s toks).1 := rfl
+
+theorem runAppIO_state (env : Env) (e : IOEnv) (cv : Conv) (app : List Cmd) (hs : Handlers) (hio : IOHandlers)
+    (s : AppState) (w : World) (toks : List Str) :
+    (runAppIO env e cv app hs hio (s, w) toks).2 = ((runAppS env cv app hs s toks).2, w) := rfl
+
+/-- a history of runs leaves the application state `runHistoryS` leaves, and the world - the configuration's style set,
+the (unused) cache - as it was: nothing a handler did to its I/O is kept anywhere -/
+theorem runHistoryIO_state (env : Env) (e : IOEnv) (cv : Conv) (app : List Cmd) (hs : Handlers) (hio : IOHandlers)
+    (w : World) (hist : List (List Str)) (s : AppState) :
+    (runHistoryIO env e cv app hs hio (s, w) hist).2 = ((runHistoryS env cv app hs s hist).2, w) := by
+  induction hist generalizing s with
+  | nil => rfl
+  | cons l rest ih =>
+    have := ih (runAppS env cv app hs s l).2
+    simp only [runHistoryIO, runHistoryS, runHistoryIOP, runHistorySP] at this ⊢
+    exact this
+
+theorem runHistoryIO_obs (env : Env) (e : IOEnv) (cv : Conv) (app : List Cmd) (hs : Handlers) (hio : IOHandlers)
+    (w : World) (hist : List (List Str)) (s : AppState) (h : Restored s) :
+    (runHistoryIO env e cv app hs hio (s, w) hist).1 = hist.map (fun l => obsOf e w hio (runApp env cv app hs l)) := by
+  induction hist generalizing s with
+  | nil => rfl
+  | cons l rest ih =>
+    have h1 := ih (runAppS env cv app hs s l).2 (app_run_keeps_configured env cv app hs s h l)
+    have h2 := app_run_stateless env cv app hs s h l
+    simp only [runHistoryIO, runHistoryIOP, List.map_cons, List.cons.injEq] at h1 ⊢
+    refine ⟨?_, h1⟩
+    show obsOf e w hio (runAppS env cv app hs s l).1 = _
+    rw [h2]
+
+/-- the first handler call of a run finds the state the run started with -/
+theorem runCalls_head (s : IOState) (calls : List Handler) : ∀ x ∈ (runCalls s calls).1.head?, x.1 = s := by
+  cases calls with
+  | nil => intro x hx; simp [runCalls] at hx
+  | cons h r => intro x hx; simp only [runCalls, List.head?_cons, Option.mem_def, Option.some.injEq] at hx; rw [← hx]
+
+/-- `create_io` of the code as it is reads the configuration's STYLE SET and nothing else of the world -/
+theorem createIO_perRun_fresh (e : IOEnv) (w : World) (cfg : Switches.IOCfg) :
+    (createIOP .perRun e w cfg).1 = freshIO e w.styleSet cfg := rfl
+
+/-- **The I/O state a handler finds is that of a fresh application**: for every application, every assignment of
+handlers that change the I/O they are given in ANY way (`hio`), every history of command lines run on ONE application
+object and every final line, the handler of the final run is handed the I/O state `create_io` builds from the
+configuration's style set and the tokens of THAT line - formatter registries (pastel's styles + the style set's),
+which outputs hold which formatter object, verbosity, quiet, interaction, indentation 0 - whatever the world held
+(`w` arbitrary, also a non-empty cache).  That is the state a freshly built application hands to it. -/
+theorem io_state_fresh_per_run (env : Env) (e : IOEnv) (cv : Conv) (app : List Cmd) (hs : Handlers) (hio : IOHandlers)
+    (raw : List (List Str × Option Bool)) (parsers : List (List Str × Nat)) (w : World)
+    (hist : List (List Str)) (final : List Str) :
+    (∀ x ∈ (runAppIO env e cv app hs hio
+        (runHistoryIO env e cv app hs hio (initState raw parsers, w) hist).2 final).1.2.head?,
+      x.1 = freshIO e w.styleSet (Switches.createIO final env.debug)) ∧
+    (∀ x ∈ (runAppIO env e cv app hs hio (initState raw parsers, World.fresh w.styleSet) final).1.2.head?,
+      x.1 = freshIO e w.styleSet (Switches.createIO final env.debug)) := by
+  refine ⟨?_, ?_⟩
+  · rw [runHistoryIO_state, runAppIO_obs]
+    intro x hx
+    have := runCalls_head _ _ x hx
+    rw [this, createIO_perRun_fresh, app_io_of_tokens]
+  · rw [runAppIO_obs]
+    intro x hx
+    have := runCalls_head _ _ x hx
+    rw [this, createIO_perRun_fresh, app_io_of_tokens]
+    rfl
+
+/-- **What a handler did to its I/O does not leak**: for every history of runs whose handlers tweak their I/O
+arbitrarily, the final run gives - result, the I/O state every handler call finds, every line shown - what it gives on
+the application as built; every run of the history gives what it gives as the first run; and the world (the
+configuration's style set) is afterwards what it was. -/
+theorem tweaks_do_not_leak (env : Env) (e : IOEnv) (cv : Conv) (app : List Cmd) (hs : Handlers) (hio : IOHandlers)
+    (raw : List (List Str × Option Bool)) (parsers : List (List Str × Nat)) (w : World)
+    (hist : List (List Str)) (final : List Str) :
+    (runAppIO env e cv app hs hio (runHistoryIO env e cv app hs hio (initState raw parsers, w) hist).2 final).1 =
+      (runAppIO env e cv app hs hio (initState raw parsers, w) final).1 ∧
+    (runHistoryIO env e cv app hs hio (initState raw parsers, w) hist).1 =
+      hist.map (fun l => (runAppIO env e cv app hs hio (initState raw parsers, w) l).1) ∧
+    (runHistoryIO env e cv app hs hio (initState raw parsers, w) hist).2.2 = w := by
+  refine ⟨?_, ?_, ?_⟩
+  · rw [runHistoryIO_state, runAppIO_obs, runAppIO_obs, app_reused_eq_fresh]
+  · rw [runHistoryIO_obs _ _ _ _ _ _ _ _ _ (initState_restored raw parsers)]
+    apply List.map_congr_left
+    intro l _
+    rw [runAppIO_obs, app_run_stateless env cv app hs _ (initState_restored raw parsers)]
+  · rw [runHistoryIO_state]
+
+/-- the cache of the world is not read by the code as it is: a world that holds cached formatters (an application that
+ran under another protocol) gives what the fresh world gives -/
+theorem world_cache_unread (env : Env) (e : IOEnv) (cv : Conv) (app : List Cmd) (hs : Handlers) (hio : IOHandlers)
+    (s : AppState) (w : World) (toks : List Str) :
+    (runAppIO env e cv app hs hio (s, w) toks).1 = (runAppIO env e cv app hs hio (s, World.fresh w.styleSet) toks).1 := rfl
+
+namespace LeakDemo
+def brand : Str := ['b', 'r', 'a', 'n', 'd']
+def magenta : Look := ['m', 'a', 'g']
+def info : Str := ['i', 'n', 'f', 'o']
+/-- plain buffered streams, pastel registers `info` -/
+def e : IOEnv := { pastel := [(info, ['g'])], streams := (false, false) }
+def cfg : Switches.IOCfg := { ansi := .auto, verbosity := 0, quiet := false, interactive := true }
+/-- run 1: the handler adds a private style to the formatter of ITS output and writes a line on both channels -/
+def addsBrand : Handler := execOps [.addStyle .out brand magenta, .write .out brand 0, .write .err brand 0]
+/-- run 2: the handler only writes -/
+def looks : Handler := execOps [.write .out brand 0, .write .err brand 0]
+def w0 : World := World.fresh [(['b'], ['b', 'o', 'l', 'd'])]
+end LeakDemo
+open LeakDemo in
+/-- **The seeded change of round eight as a proved counterexample**: with ONE formatter object per configuration and
+(class, arguments) the style `brand` added by the handler of run 1 is still registered in run 2 - `<brand>` is removed
+there (styled) on BOTH channels (the cache also makes the two outputs share one object), where a freshly built
+application shows the literal text; with a formatter per run (the code as it is) run 2 shows the literal text, and in
+run 1 the error output - a formatter object of its own - does not know the style. -/
+theorem cached_formatter_leaks :
+    (runIOP .cachedPerConfig e (runIOP .cachedPerConfig e w0 cfg [addsBrand]).2 cfg [looks]).1.map (·.2) =
+      [[⟨.out, brand, 0, some (0, .stripped magenta)⟩, ⟨.err, brand, 0, some (0, .stripped magenta)⟩]] ∧
+    (runIOP .cachedPerConfig e w0 cfg [looks]).1.map (·.2) =
+      [[⟨.out, brand, 0, some (0, .literal)⟩, ⟨.err, brand, 0, some (0, .literal)⟩]] ∧
+    (runIOP .perRun e (runIOP .perRun e w0 cfg [addsBrand]).2 cfg [looks]).1.map (·.2) =
+      [[⟨.out, brand, 0, some (0, .literal)⟩, ⟨.err, brand, 0, some (0, .literal)⟩]] ∧
+    (runIOP .perRun e w0 cfg [addsBrand]).1.map (·.2) =
+      [[⟨.out, brand, 0, some (0, .stripped magenta)⟩, ⟨.err, brand, 0, some (0, .literal)⟩]] := by
+  decide
+
+open LeakDemo in
+/-- non-vacuity of `io_state_fresh_per_run`: under `--ansi` ONE forced ANSI formatter serves both outputs, it holds
+pastel's styles and the style set's; a style added through the error output then shows, in colour, on the output -/
+example : freshIO e w0.styleSet { cfg with ansi := .forced } =
+    { fmts := [{ ansi := true, forced := true, styles := [(info, ['g']), (['b'], ['b', 'o', 'l', 'd'])] }],
+      out := { fmt := 0, streamAnsi := false, formatOutput := true, verbosity := 0, quiet := false, indent := 0 },
+      err := { fmt := 0, streamAnsi := false, formatOutput := true, verbosity := 0, quiet := false, indent := 0 },
+      interactive := true } := by decide
+open LeakDemo in
+example : (execOps [.addStyle .err brand magenta, .indent none false 3, .write .out brand 0, .setQuiet none true,
+      .write .out brand 0] (freshIO e w0.styleSet { cfg with ansi := .forced })).2 =
+    [⟨.out, brand, 0, some (3, .ansi magenta)⟩, ⟨.out, brand, 0, none⟩] := by decide
+
+end RunIO
 
 /-! ## Renderings on one I/O: indentation scopes over outputs that may be ONE object
 
